@@ -9,6 +9,7 @@ mod c02;
 mod c03;
 mod c07;
 mod c08;
+mod c09;
 mod c11;
 mod c12;
 mod c17;
@@ -39,6 +40,7 @@ fn property(id: &str) -> Option<Box<dyn Property>> {
         "C03" => Box::new(c03::C03::new()),
         "C07" => Box::new(c07::C07::new()),
         "C08" => Box::new(c08::C08::new()),
+        "C09" => Box::new(c09::C09::new()),
         "C11" => Box::new(c11::C11::new()),
         "C12" => Box::new(c12::C12::new()),
         "C17" => Box::new(c17::C17::new()),
